@@ -29,14 +29,12 @@ def gen_history(rng, stats, names=True, max_adds=8):
     ops = []
     asts = []
     n_add = rng.randint(1, max_adds)
-    n_q = rng.randint(4, 12)
-    plan = ['A'] * n_add + ['Q'] * n_q
-    # adds first for the most part, a few lookups in between
-    head = plan[:n_add]
-    tail = plan[n_add:]
-    for _ in range(rng.randint(0, 2)):
-        if tail:
-            head.insert(rng.randint(1, len(head)), tail.pop())
+    # lookups after (almost) every registration, so that every intermediate tree is probed
+    head, tail = [], ['Q'] * rng.randint(2, 5)
+    for _ in range(n_add):
+        head.append('A')
+        if rng.random() < .7:
+            head += ['Q'] * rng.randint(1, 3)
     from ombott.router.radirouter import RadiRouter
     shadow = RadiRouter()          # only to know which rules are accepted (paths are derived from those)
     live = []
@@ -99,7 +97,7 @@ class C01(Check):
         self.stats = {}
 
     def budget(self, tier, escalated):
-        n = 1200 if tier == "quick" else 60000
+        n = 900 if tier == "quick" else 40000
         return n * (3 if escalated and tier == 'quick' else 1)
 
     def nontrivial(self, sample):
@@ -158,6 +156,8 @@ class C01(Check):
             elif op[0] == 'D':
                 return bad
             elif op[0] in ('R', 'W', 'G'):
+                run.ops.append('N')          # keeps Runner positions equal to op positions
+                run.answers.append('skip')
                 if op[0] == 'R':
                     path, methods = op[1], op[2] or ['GET', 'ANY']
                 elif op[0] == 'G':
